@@ -431,7 +431,7 @@ pub fn spec(check: &str, tier: &str) -> Option<CheckSpec> {
             Some(CheckSpec {
                 id: "C19",
                 level: "model_checking",
-                rule: "every program of the level x every placement i<=j of stop_exploring()/explore() in every thread, every placement of skip_branch(), every placement of explore() with expect_explicit_explore; max_branches in {b-1,b,b+1}; max_threads in {k-1,k,k+1}; max_permutations x checkpoint interval grid around N; max_duration in {0, 1h}; non-trivial = >= 2 iterations unrestricted",
+                rule: "every program of the level x every placement i<=j of stop_exploring()/explore() in every thread, every placement of skip_branch(), every placement of explore() with expect_explicit_explore; every max_branches in 1..=b+1; max_threads in {k-1,k,k+1}; max_permutations x checkpoint interval grid around N; max_duration in {0, 1h}; non-trivial = >= 2 iterations unrestricted",
                 assumptions: vec!["a region is the time between the two calls (the exploring flag is global to the execution)", "max_permutations / max_duration are only examined at checkpoint boundaries, as documented for the checkpoint interval"],
                 wall_cap: wall,
                 jobs: jobs("C19", tier, progs, &cfg),
